@@ -136,6 +136,18 @@ func (w *world) hostile(a action) {
 			x, _ := r.NewException()
 			x.SetReason("verif-late-exception")
 		}
+	case "return-predicted-question", "return-predicted-question-exception":
+		r, _ := rm.NewReturn()
+		r.SetAnswerId(uint32(a.N))
+		r.SetReleaseParamCaps(false)
+		if a.Kind == "return-predicted-question" {
+			p, _ := r.NewResults()
+			s, _ := capnp.NewStruct(p.Segment(), capnp.ObjectSize{DataSize: 8, PointerCount: 1})
+			p.SetContent(s.ToPtr())
+		} else {
+			x, _ := r.NewException()
+			x.SetReason("verif-early-exception")
+		}
 	case "bootstrap-reused-question":
 		b, _ := rm.NewBootstrap()
 		b.SetQuestionId(uint32(a.Q))
